@@ -23,6 +23,16 @@ def variants(rng, name, value):
     return n + b":" + sp + value + rng.choice([b"", b" "])
 
 
+def dup(rng, name, value, other=None):
+    """the same header twice: names in independently chosen case (header names are case-insensitive), values equal or not"""
+    n1 = rng.choice([name, name.lower(), name.upper()])
+    n2 = rng.choice([name, name.lower(), name.upper(), name.title()])
+    v2 = value if (other is None or rng.random() < 0.5) else other
+    pair = [n1 + b": " + value, n2 + b": " + v2]
+    rng.shuffle(pair)
+    return pair
+
+
 def build_request(r, rng):
     line = {"ok": b"GET /chat?x=1 HTTP/1.1", "post": b"POST /chat HTTP/1.1", "http10": b"GET /chat HTTP/1.0",
             "two-parts": b"GET /chat", "fragment": b"GET /chat#frag HTTP/1.1"}[r["line"]]
@@ -30,7 +40,7 @@ def build_request(r, rng):
     if r["host"] == "ok":
         h.append(variants(rng, b"Host", b"localhost:9000"))
     elif r["host"] == "dup":
-        h += [b"Host: localhost:9000", b"Host: localhost:9000"]
+        h += dup(rng, b"Host", b"localhost:9000", b"otherhost:9000")
     elif r["host"] == "badport":
         h.append(b"Host: localhost:abc")
     up = {"ok": b"websocket", "ok-mixedcase": b"WebSocket", "ok-in-list": b"foo, websocket", "other": b"h2c"}.get(r["upgrade"])
@@ -43,13 +53,13 @@ def build_request(r, rng):
     if v in ("ok", "ok-8", "unsupported", "nonint"):
         h.append(variants(rng, b"Sec-WebSocket-Version", {"ok": b"13", "ok-8": b"8", "unsupported": b"99", "nonint": b"abc"}[v]))
     elif v == "dup":
-        h += [b"Sec-WebSocket-Version: 13", b"Sec-WebSocket-Version: 13"]
+        h += dup(rng, b"Sec-WebSocket-Version", b"13", b"8")
     k = r["key"]
     key = KEY_OK
     if k == "ok":
         h.append(variants(rng, b"Sec-WebSocket-Key", KEY_OK))
     elif k == "dup":
-        h += [b"Sec-WebSocket-Key: " + KEY_OK, b"Sec-WebSocket-Key: " + KEY_OK]
+        h += dup(rng, b"Sec-WebSocket-Key", KEY_OK, b"AAAAAAAAAAAAAAAAAAAAAA==")
     elif k == "short":
         h.append(b"Sec-WebSocket-Key: dGhlIHNhbXBsZQ==")
     elif k == "badpad":
@@ -70,7 +80,7 @@ def build_request(r, rng):
     if oval is not None:
         h.append(variants(rng, okey, oval))
     elif o == "dup":
-        h += [okey + b": http://good.example.com", okey + b": http://good.example.com"]
+        h += dup(rng, okey, b"http://good.example.com", b"http://evil.example.com")
     if r["protos"] == "ok-list":
         h.append(variants(rng, b"Sec-WebSocket-Protocol", rng.choice([b"chat, superchat", b"superchat,chat", b"chat"])))
     elif r["protos"] == "dup":
@@ -81,7 +91,7 @@ def build_request(r, rng):
     elif e == "ok-unknown":
         h.append(variants(rng, b"Sec-WebSocket-Extensions", b"x-foo-bar; a=1"))
     elif e == "dup":
-        h += [b"Sec-WebSocket-Extensions: permessage-deflate", b"Sec-WebSocket-Extensions: permessage-deflate"]
+        h += dup(rng, b"Sec-WebSocket-Extensions", b"permessage-deflate")
     rng.shuffle(h)
     return line + b"\r\n" + b"\r\n".join(h) + b"\r\n\r\n", key
 
@@ -185,7 +195,7 @@ def build_response(p_, key, other_key, rng):
     if a == "ok":
         h.append(variants(rng, b"Sec-WebSocket-Accept", good))
     elif a == "dup":
-        h += [b"Sec-WebSocket-Accept: " + good, b"Sec-WebSocket-Accept: " + good]
+        h += dup(rng, b"Sec-WebSocket-Accept", good, b"AAAAAAAAAAAAAAAAAAAAAAAAAAA=")
     elif a == "wrong":
         bad = bytearray(good)
         bad[rng.randrange(len(bad) - 1)] ^= 1
@@ -200,7 +210,7 @@ def build_response(p_, key, other_key, rng):
     elif pr == "substring-of-requested":
         h.append(b"Sec-WebSocket-Protocol: " + rng.choice([b"wamp.2", b"json", b"wamp.2.json,wamp.2.msgpack", b",", b"wamp.2.js"]))
     elif pr == "dup":
-        h += [b"Sec-WebSocket-Protocol: wamp.2.json", b"Sec-WebSocket-Protocol: wamp.2.json"]
+        h += dup(rng, b"Sec-WebSocket-Protocol", b"wamp.2.json", b"wamp.2.msgpack")
     if p_["exts"] == "unknown":
         h.append(b"Sec-WebSocket-Extensions: x-foo-bar")
     rng.shuffle(h)
@@ -246,7 +256,11 @@ def run_creq(inp, rng):
     urls = [("ws://localhost:9000", "localhost", 9000, "/"), ("ws://example.com/", "example.com", 80, "/"),
             ("ws://example.com:80/a/b", "example.com", 80, "/a/b"), ("ws://example.com:8080/a?x=1&y=%20z", "example.com", 8080, "/a?x=1&y=%20z"),
             ("wss://sec.example.org/ws", "sec.example.org", 443, "/ws"), ("wss://sec.example.org:8443/ws?token=abc", "sec.example.org", 8443, "/ws?token=abc"),
-            ("ws://127.0.0.1:1/x", "127.0.0.1", 1, "/x"), ("ws://[::1]:9000/ip6", "::1", 9000, "/ip6"), ("ws://h.example:65535", "h.example", 65535, "/")]
+            ("ws://127.0.0.1:1/x", "127.0.0.1", 1, "/x"),
+            # percent-encoded octets of the resource go out exactly as given (decoding them would change the resource)
+            ("ws://example.com/chat%20room", "example.com", 80, "/chat%20room"), ("ws://example.com/user%3Fadmin=1", "example.com", 80, "/user%3Fadmin=1"),
+            ("ws://example.com/a%2Fb/c", "example.com", 80, "/a%2Fb/c"), ("ws://example.com/%C3%A4%E2%82%AC", "example.com", 80, "/%C3%A4%E2%82%AC"),
+            ("ws://example.com/p%20q?x=%26&y=%3D", "example.com", 80, "/p%20q?x=%26&y=%3D"), ("ws://example.com/a%23b", "example.com", 80, "/a%23b"), ("ws://[::1]:9000/ip6", "::1", 9000, "/ip6"), ("ws://h.example:65535", "h.example", 65535, "/")]
     for url, host, port, resource in urls:
         for version in (10, 13, 18):
             log = []
